@@ -584,12 +584,76 @@ impl Alg for AAssignMin {
     }
 }
 
+/// A lazy item whose modifier type is zero-sized: range flip over a 0/1 array, aggregate = (number of ones, length).
+#[derive(Clone, Copy, Debug, PartialEq)]
+pub struct Flip;
+
+#[derive(Clone, Debug, PartialEq)]
+pub struct FlipItem {
+    pub ones: i64,
+    pub len: i64,
+    /// a flip is owed to the children
+    pub pending: bool,
+}
+impl Default for FlipItem {
+    fn default() -> Self {
+        Self { ones: 0, len: 0, pending: false }
+    }
+}
+impl SegtreeItem<Flip> for FlipItem {
+    fn merge(l: &Self, r: &Self) -> Self {
+        Self { ones: l.ones + r.ones, len: l.len + r.len, pending: false }
+    }
+    fn modify(&mut self, _: &Flip) {
+        self.ones = self.len - self.ones;
+        self.pending = !self.pending;
+    }
+    fn push(&mut self, l: &mut Self, r: &mut Self) {
+        if self.pending {
+            self.pending = false;
+            l.modify(&Flip);
+            r.modify(&Flip);
+        }
+    }
+}
+
+pub struct AFlip;
+impl Alg for AFlip {
+    const NAME: &'static str = "FlipCount(zero-sized modifier)";
+    const COMMUTATIVE: bool = true;
+    type M = Flip;
+    type Item = FlipItem;
+    type E = i64;
+    type O = (i64, i64);
+    fn elem(raw: u32, _nonneg: bool) -> i64 {
+        (raw & 1) as i64
+    }
+    fn item(e: &i64) -> FlipItem {
+        FlipItem { ones: *e, len: 1, pending: false }
+    }
+    fn modifier(_raw: u32, _nonneg: bool) -> Flip {
+        Flip
+    }
+    fn apply(e: &mut i64, _: &Flip) {
+        *e = 1 - *e;
+    }
+    fn fold(es: &[i64]) -> (i64, i64) {
+        (es.iter().sum(), es.len() as i64)
+    }
+    fn obs(it: &FlipItem) -> (i64, i64) {
+        (it.ones, it.len)
+    }
+    fn pred(family: u8, t: u32, folds: &[(i64, i64)]) -> Pred<(i64, i64)> {
+        ASumAdd::pred(family, t, folds)
+    }
+}
+
 pub type ACombMinMaxAdd = AComb<AMinAdd, AMaxAdd>;
 pub type ACombSumMinMax = AComb<ASumAdd, AComb<AMinAdd, AMaxAdd>>;
 pub type AComb4 = AComb<AComb<ASumAdd, AMinAdd>, AComb<AMaxAdd, ASumAdd>>;
 pub type ACombMinMax = AComb<AMin, AMax>;
 
-pub const ALG_NAMES: [&str; 14] = [
+pub const ALG_NAMES: [&str; 15] = [
     "Min",
     "Max",
     "Sum",
@@ -604,4 +668,5 @@ pub const ALG_NAMES: [&str; 14] = [
     "HashAffine",
     "AssignAddSum",
     "AssignAddMin",
+    "FlipCount(zero-sized modifier)",
 ];
